@@ -1,5 +1,6 @@
 import LachesisVerif.Proofs.ComposeRun
 import LachesisVerif.Proofs.ComposeEpochs2
+import LachesisVerif.Proofs.RestartEpochs3
 import LachesisVerif.Props.C01
 import LachesisVerif.Props.C08
 import LachesisVerif.Props.C10
@@ -47,6 +48,10 @@ Corollaries, WITHOUT `hobs`, `ValsOK`, `FrameBound`:
   same epoch transitions; a seal leaves both exactly in `Model.Indexed.initial (ep+1) nv` (new Orderer
   state, empty index for the new validators). No `hseal`; per epoch the remaining hypotheses are
   `EpochHyps` (last section, `Proofs/ComposeEpochs*.lean`).
+* `indexed_restarts_multi_epoch_partial` (C08 over several epochs; last section, `Proofs/RestartEpochs*.lean`):
+  the several-epoch run of one instance, and the same run with `restartIndexed` applied any number of
+  times at arbitrary points between `Process` calls of arbitrary epochs, emit literally the same block
+  list and end with the same persisted Orderer state, index and indexing order. No `hseal`.
 * `indexed_no_trace` (C07): `buildIndexed` and a rejected `processIndexed` return literally the previous
   combined state, so all later answers and states are equal (true by construction of the model's
   transaction; that the real `DropNotFlushed` restores the tables is the correspondence check).
@@ -615,5 +620,149 @@ example : (runEpochsIx app₁ ([pair, pair].map IEpochPair.in₁) (Model.Indexed
 end EpochsExample
 
 end Epochs
+
+/-! ### C08 over several epochs for the combined model (`Proofs/RestartEpochs*.lean`)
+
+`Compose.runEpochsIxR` is `Compose.runEpochsIx` with restarts: per epoch a list `rs` of restart counts —
+`rs[i]` restarts (`Model.Indexed.restartIndexed`: `Orderer.Bootstrap` over the persisted Orderer state and the
+PERSISTED index, nothing re-indexed) before the `i`-th submitted event of the epoch, `rs[ids.length]` after
+the last one; missing entries = 0. Position 0 of an epoch after the first is "right after the seal".
+Blocks a restart would emit are appended to the output, a restart that errs makes the run `none`. -/
+section Restarts
+
+/-- the hypotheses about ONE epoch of the run: `N` the epoch's history, `vals` the validator record the
+    instance holds in this epoch, `ids` its processing order (need not cover all events of `N`) -/
+structure RestartEpochHyps (N : Net) (vals : Vals) (ids : List Nat) : Prop where
+  hvalid : Valid N.nVals N.h
+  hframes : N.FramesAccepted
+  hbft : N.BFT
+  horder : PFFrom N [] ids
+  hW : WeightsOK N
+  hB : BuiltFor N vals
+  hchk : Checked N
+  hsmall : N.nVals + N.h.length < 4294967296
+
+/-- the hypotheses epoch by epoch (as `IndexedEpochsOK`): `RestartEpochHyps` for this epoch, and for every
+    validator record `nv` the application may return in this epoch the remaining epochs are OK from
+    `(ep+1, nv)` -/
+def IndexedRestartsOK (sealAt : Nat → Nat → Option Vals) : Nat → Vals → List IEpochInR → Prop
+  | _, _, [] => True
+  | ep, vals, p :: rest =>
+    RestartEpochHyps p.N vals p.ids ∧
+    ∀ nv, (∃ F, sealAt ep F = some nv) → IndexedRestartsOK sealAt (Gen.Orderer.sealedEpoch ep) nv rest
+
+theorem gRestartsOK_of (sealAt : Nat → Nat → Option Vals) : ∀ (ps : List IEpochInR) (ep : Nat) (vals : Vals),
+    IndexedRestartsOK sealAt ep vals ps → GRestartsOK sealAt ep vals ps := by
+  intro ps
+  induction ps with
+  | nil => intro _ _ _; trivial
+  | cons p rest ih =>
+    intro ep vals h
+    exact ⟨gok h.1.hvalid h.1.hframes h.1.hbft h.1.hW h.1.hB h.1.hchk h.1.hsmall, h.1.horder,
+      fun nv hnv => ih _ nv (h.2 nv hnv)⟩
+
+/-- **C08 for one epoch of the combined model, application may seal** (from `initial`): the plain run
+    and the run with restarts `rs` accept every event submitted, emit the same blocks `bs` (cheater lists
+    = C03's sentence) and skip the same late events; either both sealed and are exactly
+    `initial (ep+1) nv`, or neither did and they end with the same persisted Orderer state (epoch,
+    validators, last decided frame, roots table), the same index and the same indexing order. -/
+theorem indexed_restarts_epoch_partial (N : Net) (vals : Vals) (app : App) (ep : Nat) (ids rs : List Nat)
+    (H : RestartEpochHyps N vals ids) :
+    ∃ t₁ t₂ bs sk, runEpochIx N app ids (Model.Indexed.initial ep vals) [] = some (t₁, bs, sk) ∧
+      runEpochIxR N app ids rs (Model.Indexed.initial ep vals) [] = some (t₂, bs, sk) ∧
+      (∀ b ∈ bs, b.cheaters = specCheaters N b.d.atropos) ∧
+      ((bs.any (·.d.sealed) = true ∧ ∃ nv, (∃ F, app.sealAt ep F = some nv) ∧
+          t₁ = Model.Indexed.initial (Gen.Orderer.sealedEpoch ep) nv ∧
+          t₂ = Model.Indexed.initial (Gen.Orderer.sealedEpoch ep) nv) ∨
+       (bs.any (·.d.sealed) = false ∧ sk = [] ∧ OrdererRestart.SamePersisted t₁.o t₂.o ∧ t₁.v = t₂.v ∧
+          t₁.evs = t₂.evs ∧ t₁.o.epoch = ep ∧ t₁.o.vals = vals)) :=
+  epoch_restarts_initial app (gok H.hvalid H.hframes H.hbft H.hW H.hB H.hchk H.hsmall) ep ids rs H.horder
+
+/-- **C08 over several epochs for the combined model: restarts at arbitrary points of arbitrary epochs
+    are invisible.** One instance of `Model.Indexed` (an Orderer over ITS OWN vector index, the index reset
+    to the new validators by every seal) starts from genesis `Model.Indexed.initial ep vals` and receives,
+    epoch by epoch (`ps`), events of that epoch's history in a parents-first order; the next epoch's
+    events are submitted only after the current one sealed, events of an old epoch arriving after its
+    seal are not submitted (`runEpochsIx`). The second run (`runEpochsIxR`) is the same, except that the
+    instance is stopped and restarted over the same databases — `restartIndexed`: `Orderer.Bootstrap` (epoch
+    state + last decided state loaded, election re-created for frame `ldf + 1`, known roots re-processed)
+    over the persisted index — `p.rs[i]` times before the `i`-th event of epoch `p` and `p.rs[p.ids.length]`
+    times after its last one: any number of restarts, at any points between `Process` calls, in any
+    epochs (position 0 of a later epoch = right after the seal). Then
+    * both runs succeed: every restart succeeds and every submitted event is accepted in both;
+    * they emit LITERALLY the same block list `bs : List Block` — the same sequence
+      `(epoch, frame, Atropos, sealed, cheaters)`, hence the same epoch transitions; no restart emits a block;
+    * they end with the same persisted Orderer state (`SamePersisted`: epoch, validators, last decided
+      frame, roots table — only the volatile election may differ), the same index state `v` and the same
+      indexing order `evs` (after a seal both are exactly `initial (ep+1) nv`).
+    No oracle hypothesis, no `ValsOK`, no `FrameBound`, no `hseal`. Remaining hypotheses, all in
+    `IndexedRestartsOK app.sealAt ep vals ps` (= per epoch `RestartEpochHyps`, for the validator record the
+    instance holds in that epoch: `vals` at first, then whatever `app.sealAt` returned):
+    * the property's own: `hvalid` (`Valid`: what event checks + ordering buffer guarantee), `hframes`
+      (`FramesAccepted`: claimed frames obey the frame rule), `hbft` (`BFT`: forkers below one third),
+      `horder` (the submitted events are in a parents-first order; they need NOT cover the epoch's history);
+    * `hsmall`: `nVals + number of events < 2^32` per epoch (C05: 32-bit branch ids);
+    * `hW` (`WeightsOK`) + `hB` (`BuiltFor N vals`): validators named by canonical index; the record held
+      in the epoch — in later epochs the one RETURNED BY THE APPLICATION — was built by the builder;
+    * `hchk` (`Checked`): every event passed the event checks.
+    Not modelled: the reload of the index tables from the store (the restarted model keeps the persisted
+    `VState`), restarts in the middle of a `Process` call. -/
+theorem indexed_restarts_multi_epoch_partial (app : App) (ps : List IEpochInR) (ep : Nat) (vals : Vals)
+    (hok : IndexedRestartsOK app.sealAt ep vals ps) :
+    ∃ (t₁ t₂ : IState) (bs : List Block),
+      runEpochsIx app (ps.map IEpochInR.plain) (Model.Indexed.initial ep vals) [] = some (t₁, bs) ∧
+      runEpochsIxR app ps (Model.Indexed.initial ep vals) [] = some (t₂, bs) ∧
+      OrdererRestart.SamePersisted t₁.o t₂.o ∧ t₁.v = t₂.v ∧ t₁.evs = t₂.evs :=
+  indexed_epochs_restarts app ps ep vals [] (gRestartsOK_of app.sealAt ps ep vals hok)
+
+/-- the observable state spelled out: same epoch, validators, last decided frame, roots table -/
+theorem indexed_restarts_multi_epoch_state (app : App) (ps : List IEpochInR) (ep : Nat) (vals : Vals)
+    (hok : IndexedRestartsOK app.sealAt ep vals ps) :
+    ∃ (t₁ t₂ : IState) (bs : List Block),
+      runEpochsIx app (ps.map IEpochInR.plain) (Model.Indexed.initial ep vals) [] = some (t₁, bs) ∧
+      runEpochsIxR app ps (Model.Indexed.initial ep vals) [] = some (t₂, bs) ∧
+      t₂.o.epoch = t₁.o.epoch ∧ t₂.o.vals = t₁.o.vals ∧ t₂.o.ldf = t₁.o.ldf ∧ t₂.o.roots = t₁.o.roots ∧
+      t₂.v = t₁.v ∧ t₂.evs = t₁.evs := by
+  obtain ⟨t₁, t₂, bs, a, b, c, d, e⟩ := indexed_restarts_multi_epoch_partial app ps ep vals hok
+  exact ⟨t₁, t₂, bs, a, b, c.epoch, c.vals, c.ldf, c.roots, d.symm, e.symm⟩
+
+/-! non-vacuity: the three-event chain, twice (`EpochsExample`: the application seals epoch 1 at frame 1);
+    epoch 1: one restart before the second and one before the third event; epoch 2: one restart right
+    after the seal, two in a row before the third event, one after the last event -/
+namespace RestartsExample
+open ElectionExample C01.EpochExample
+
+def e₁ : IEpochInR := ⟨net, [0, 1, 2], [0, 1, 1]⟩
+def e₂ : IEpochInR := ⟨net, [0, 1, 2], [1, 0, 2, 1]⟩
+
+theorem hyps : RestartEpochHyps net ElectionExample.vals [0, 1, 2] :=
+  ⟨valid, framesAccepted, bft, OrdererProofs.Example.pf, Example.weightsOK, Example.builtFor, Example.checked, by decide⟩
+
+theorem ok : IndexedRestartsOK EpochsExample.app₁.sealAt 1 ElectionExample.vals [e₁, e₂] := by
+  refine ⟨hyps, ?_⟩
+  intro nv hnv
+  obtain ⟨F, hF⟩ := hnv
+  change exSeal 1 F = some nv at hF
+  unfold exSeal at hF
+  split at hF
+  · cases hF
+    exact ⟨hyps, fun _ _ => trivial⟩
+  · cases hF
+
+/-- all hypotheses of `indexed_restarts_multi_epoch_partial` hold on it -/
+example : ∃ (t₁ t₂ : IState) (bs : List Block),
+    runEpochsIx EpochsExample.app₁ ([e₁, e₂].map IEpochInR.plain) (Model.Indexed.initial 1 ElectionExample.vals) [] =
+      some (t₁, bs) ∧
+    runEpochsIxR EpochsExample.app₁ [e₁, e₂] (Model.Indexed.initial 1 ElectionExample.vals) [] = some (t₂, bs) ∧
+    OrdererRestart.SamePersisted t₁.o t₂.o ∧ t₁.v = t₂.v ∧ t₁.evs = t₂.evs :=
+  indexed_restarts_multi_epoch_partial EpochsExample.app₁ [e₁, e₂] 1 ElectionExample.vals ok
+
+/-- … and the run with the six restarts, executed: epoch 1 sealed at its first block, then epoch 2 -/
+example : (runEpochsIxR EpochsExample.app₁ [e₁, e₂] (Model.Indexed.initial 1 ElectionExample.vals) []).map (·.2) =
+    some [⟨⟨1, 1, 0, true⟩, []⟩, ⟨⟨2, 1, 0, false⟩, []⟩] := by decide +kernel
+
+end RestartsExample
+
+end Restarts
 
 end Consensus
